@@ -61,8 +61,10 @@ Proof. split; reflexivity. Qed.
 (* the model is a function of the descriptor: same descriptor, same output *)
 Theorem deterministic : forall pkg s, generate pkg s = generate pkg s.
 Proof. reflexivity. Qed.
+Print Assumptions deterministic.
 
 (* the pinned tree violated canonical_paths for files without a package *)
 Theorem canonical_paths_refuted_pinned :
   exists s m, procedure_name_pinned [] s m <> slash :: full_service_name [] s ++ slash :: m_name m.
 Proof. exact canonical_paths_refuted_on_pinned_tree. Qed.
+Print Assumptions canonical_paths_refuted_pinned.
